@@ -1,7 +1,7 @@
 (* C08 - Arbitrary bytes never cause memory-unsafe or undefined behaviour in decoding (partial: the
    byte-level contract is proved on the model; absence of UB in the binary is sanitizer-backed). *)
 From RS Require Import Base.Tac Base.Bytes Base.Dyadic Model.Desc Model.Kernels Model.Decoder Model.Driver Model.Input Gen.Params_gen.
-From RS Require Import Proofs.SplitNum Proofs.Coords Proofs.Conservation Proofs.Layout.
+From RS Require Import Gen.Kernels_gen Proofs.SplitNum Proofs.Coords Proofs.Conservation Proofs.Layout Proofs.Eq_Trigon.
 Local Open Scope Z_scope.
 
 (* T2: for all 17 regenerated descriptors: sizeof(packet struct) = accepted length; header, block,
@@ -20,6 +20,15 @@ Theorem C08_T3_trig_clamped a : -9000 <= trig_idx a < 45000.
 Proof. exact (trig_idx_in_table a). Qed.
 Theorem C08_T3_table_bounds : g_TRIGON_MIN = TRIGON_MIN /\ g_TRIGON_MAX = TRIGON_MAX.
 Proof. exact trigon_consts. Qed.
+
+(* T3c: Trigon::sin / Trigon::cos as regenerated from trigon.hpp (the index each uses) equal the model's clamp for every
+   angle, and that index lies inside the table Trigon::Trigon allocates (extent recorded by the probe on this run) *)
+Theorem C08_T3_trig_code_is_model a : Trigon_sin a = trig_idx a /\ Trigon_cos a = trig_idx a.
+Proof. exact (conj (gen_trig_sin_eq a) (gen_trig_cos_eq a)). Qed.
+Theorem C08_T3_trig_code_in_table a :
+  g_TRIG_SIN_LO <= Trigon_sin a < g_TRIG_SIN_LO + g_TRIG_SIN_LEN /\ g_TRIG_COS_LO <= Trigon_cos a < g_TRIG_COS_LO + g_TRIG_COS_LEN.
+Proof. exact (conj (gen_trig_sin_in_table a) (gen_trig_cos_in_table a)). Qed.
+Print Assumptions C08_T3_trig_code_in_table.
 
 (* T4: raw path: a datagram is either dropped or stripped to a non-empty payload that fits the packet
    buffer and lies inside the datagram *)
